@@ -505,7 +505,10 @@ def r07_4(ctx, repo):
                     ctx.ok(rule, where, construct,
                            'membership test on plain python values')
     if n < 1:
-        ctx.error(rule, 'no membership test on selection rows found')
+        # a hazard rule: without a membership test on rows there is nothing
+        # that can raise (its firing is shown by the self-test mutant)
+        ctx.ok(rule, 'chi/_covariate_models.py', 'CovariateModel',
+               'no membership test on rows of an array argument')
 
 
 # -----------------------------------------------------------------------------
@@ -1714,6 +1717,45 @@ def r07_5(ctx, repo):
                  and U(c.func) in ('np.argsort', 'np.lexsort')]
         sorts.sort(key=lambda c: (c.lineno, c.col_offset))
         if not sorts:
+            # rows held as python tuples / lists: `sorted(rows)` (no key) and
+            # `np.unique(rows, axis=0)` order them lexicographically, i.e.
+            # by (column 0, column 1)
+            lex = [c for c in ast.walk(fn) if isinstance(c, ast.Call) and (
+                (U(c.func) == 'sorted' and c.args and not c.keywords) or (
+                    U(c.func) == 'np.unique' and any(
+                        k.arg == 'axis' and isinstance(k.value, ast.Constant)
+                        and k.value.value == 0 for k in c.keywords)))]
+            keyed = [c for c in ast.walk(fn) if isinstance(c, ast.Call)
+                     and U(c.func) in ('sorted', 'np.sort') and c.keywords]
+            if lex and not keyed:
+                # the rows keep the column order of the input pairs?
+                swapped = False
+                for t in ast.walk(fn):
+                    if isinstance(t, (ast.Tuple, ast.List)) and len(
+                            t.elts) == 2:
+                        idx = []
+                        for e in t.elts:
+                            sub = [x for x in ast.walk(e) if isinstance(
+                                x, ast.Subscript) and isinstance(
+                                x.slice, ast.Constant) and isinstance(
+                                x.slice.value, int)]
+                            idx.append(sub[0].slice.value if sub else None)
+                        if idx == [1, 0]:
+                            swapped = True
+                n += 1
+                where = repo.loc(lex[-1], cls, fn.name)
+                if swapped:
+                    ctx.violation(
+                        rule, where, construct, 'sort keys',
+                        'the pairs are stored as (dimension, parameter) '
+                        'before the lexicographic sort: the selection is '
+                        'ordered by columns [1, 0]; the published order is '
+                        '(parameter index, dimension index)')
+                else:
+                    ctx.ok(rule, where, construct,
+                           'selection is ordered lexicographically by '
+                           '(parameter index, dimension index)')
+                continue
             ctx.error(rule, '%s: no sort of the selection found' % construct)
             continue
         n += 1
